@@ -108,7 +108,7 @@ def add_noise_reads(ch, prog):
 
 
 def run(ch, params, decoded=False):
-    knobs = R.draw_knobs(ch)
+    knobs = R.draw_knobs(ch, registries=not params.get("pinned_prog"))
     if params.get("pinned_prog"):
         # pinned case of a known finding: the program is given as data, so the file stays valid when the generator changes
         import json as _json
@@ -123,9 +123,12 @@ def run(ch, params, decoded=False):
         prog["ctx"]["nz0"] = "NA0"
         prefix = R.gen_prefix_ops(ch, params, mode, params.get("max_prefix", 0))
     flip = (not params.get("pinned_prog")) and ch.chance(1, 6, "mode_flip")
+    private = knobs.get("registry", "default") != "default"
+    if private:
+        flip = False   # the project-wide setting is not what a private registry's components follow
     w = R.start_world(knobs, mode)
     violations = []
-    stats = {"mode=" + mode: 1}
+    stats = {"mode=" + mode: 1, "registry=" + knobs.get("registry", "default"): 1}
     R.run_prefix_ops(prefix, w, stats)
     exp = ref.run_model(prog)
     _skip = R.skipped_if_too_big(exp)
@@ -173,7 +176,7 @@ def run(ch, params, decoded=False):
     real, ctxp = render_keep_ctx(prog, classes, w, budget, prog["ctx"])
     judge("tag", real, ctxp)
     stats["probe:caller_context_checked"] = 1 if real[0] == "ok" else 0
-    if prog["py_entry"] and not violations:
+    if prog["py_entry"] and not violations and knobs.get("registry") != "private-opposite":
         # Component.render(context=ctx): the given context is the ROOT context also in isolated mode (the suite pins
         # this), so only variables that nothing reads are handed over; the oracle of interest here is caller-Context
         # preservation. The expected output is the model's for an empty page context.
